@@ -974,8 +974,11 @@ def _do_mpe(wd, op, step, before):
             wd.violate("gate.stored", step, f"mpe on {name} before any run raised, yet a result was stored", ai)
             return "gate"
         if after["algs"][ai]["params"] != before["algs"][ai]["params"]:
-            wd.inc("probe.gate_mpe_touched_run_params")  # narrow reading: result and data are what is judged
-        wd.check_isolation(before, after, step, {"params": {ai}})
+            wd.violate("gate.stored", step,
+                       f"mpe on {name} before any run raised {type(rexc).__name__}, yet its run parameters were overwritten "
+                       f"with the extraction arguments", ai)
+            return "gate"
+        wd.check_isolation(before, after, step, {})
         return "gate"
     if fired:
         wd.inc("fault.fired.num_exc")
